@@ -127,7 +127,8 @@ impl C15Space {
             for (idx, ms) in &r.meas {
                 let (name, n) = &labels[*idx as usize];
                 let s = (ms[0] + ms[4]).max(1);
-                by_rung.entry(name.as_str()).or_default().push((*n, ms[0], ms[2] as f64 / s as f64, *idx));
+                // one decode attempt materialises an entry per template field before it can fail: linear in W, allowed for as in the peak law
+                by_rung.entry(name.as_str()).or_default().push((*n, ms[0], ms[2].saturating_sub(PEAK_W * ms[1]) as f64 / s as f64, *idx));
             }
             for (name, mut pts) in by_rung {
                 pts.sort_by_key(|p| p.0);
@@ -317,8 +318,8 @@ pub fn run(tier: &str) -> i32 {
         prop: "C15".into(),
         tier: tier.into(),
         level: "model_checking",
-        rule: "every point of the scale ladder (every structural repetition at n in {1..16, 24, 32, ... x1.33/1.5 ..., max-1, max} up to the 65 535-byte datagram limit; quick: 12 sizes per rung) and every case of the V9 and IPFIX grammar products is executed in an isolated worker whose counting allocator measures T (bytes requested during the call), Pk (peak live above entry), R (bytes live at return), with |x| and W (wire size of cached templates). Laws: Pk <= 8|x| + 2R + 64W + 256 KiB; R <= 2048(|x|+W) + 64 KiB; T <= 16384(|x|+R); and per rung, T/(|x|+R) at any n with |x| >= 4 KiB may not exceed 3x its minimum at a smaller such n (super-linear growth). Distinct by (T, Pk, elements)".into(),
-        bounds: json!({"peak_law": "Pk <= 8|x| + 2R + 64W + 262144", "output_law": "R <= 2048(|x|+W) + 65536", "backstop": "T <= 16384(|x|+R)", "growth_law": "T/(|x|+R) <= 3 x min at smaller n, |x| >= 4096", "time_growth_law": "wall/(|x|+R+W) <= 10 x min at smaller n for calls >= 20 ms, confirmed by two isolated re-measurements", "live_heap_budget": 4u64<<30}),
+        rule: "every point of the scale ladder (every structural repetition at n in {1..16, 24, 32, ... x1.33/1.5 ..., max-1, max} up to the 65 535-byte datagram limit; quick: 12 sizes per rung) and every case of the V9 and IPFIX grammar products is executed in an isolated worker whose counting allocator measures T (bytes requested during the call), Pk (peak live above entry), R (bytes live at return), with |x| and W (wire size of cached templates). Laws: Pk <= 8|x| + 2R + 64W + 256 KiB; R <= 2048(|x|+W) + 64 KiB; T <= 16384(|x|+R); and per rung, (T - 64W)/(|x|+R) at any n with |x| >= 4 KiB may not exceed 3x its minimum at a smaller such n (super-linear growth). Distinct by (T, Pk, elements)".into(),
+        bounds: json!({"peak_law": "Pk <= 8|x| + 2R + 64W + 262144", "output_law": "R <= 2048(|x|+W) + 65536", "backstop": "T <= 16384(|x|+R)", "growth_law": "(T-64W)/(|x|+R) <= 3 x min at smaller n, |x| >= 4096", "time_growth_law": "wall/(|x|+R+W) <= 10 x min at smaller n for calls >= 20 ms, confirmed by two isolated re-measurements", "live_heap_budget": 4u64<<30}),
         assumptions: vec!["constants are chosen (about 3x head-room over the measured benign maxima, which are reported under measured_maxima)".into(), "the growth law compares against the minimum ratio at smaller sizes rather than consecutive pairs, because amortised Vec doubling makes consecutive ratios jump by up to 1.5x".into()],
         trusted_base: vec!["alloc.rs counting allocator".into(), "sweep.rs".into()],
         required_tags: vec![],
